@@ -83,6 +83,27 @@ def _sorted_copy_in_place(f):
     for L (both sorts are stable and compute each key once)."""
     from ..model import Func
     from .common import pos
+    # `for v in sorted(L, ..)`: the sorted copy is made once, before the loop — give it a name
+    for lp_ in [n for n in own_nodes(f.node) if isinstance(n, ast.For) and isinstance(n.iter, ast.Call) and norm.is_name(n.iter.func, "sorted") and len(n.iter.args) == 1
+                and isinstance(n.iter.args[0], ast.Name)]:
+        node = norm.clone(f.node)
+        omap = {id(o): c_ for o, c_ in zip(ast.walk(f.node), ast.walk(node))}
+        clp = omap[id(lp_)]
+        V = f"{lp_.iter.args[0].id}__sorted"
+        new = ast.copy_location(ast.Assign(targets=[ast.Name(id=V, ctx=ast.Store())], value=clp.iter), clp)
+        clp.iter = ast.copy_location(ast.Name(id=V, ctx=ast.Load()), clp.iter)
+        par = omap[id(parent(lp_))]
+        for fld in ("body", "orelse", "finalbody"):
+            b = getattr(par, fld, None)
+            if isinstance(b, list) and any(x is clp for x in b):
+                i_ = [k_ for k_, x in enumerate(b) if x is clp][0]
+                b[i_:i_] = [new]
+        ast.fix_missing_locations(node)
+        for n in ast.walk(node):
+            for ch in ast.iter_child_nodes(n):
+                ch._parent = n  # type: ignore[attr-defined]
+        node._parent = getattr(f.node, "_parent", None)  # type: ignore[attr-defined]
+        return _sorted_copy_in_place(Func(f.mod, f.qual, node, f.cls))
     for st in [n for n in own_nodes(f.node) if isinstance(n, ast.Assign) and len(n.targets) == 1 and isinstance(n.targets[0], ast.Name) and isinstance(n.value, ast.Call)
                and norm.is_name(n.value.func, "sorted") and len(n.value.args) == 1 and isinstance(n.value.args[0], ast.Name)]:
         V, L = st.targets[0].id, st.value.args[0].id
